@@ -152,6 +152,8 @@ def install(ip):
     # -- dict ------------------------------------------------------------------------------------------------
     def dkey(ip, d, key):
         """Find the concrete-dict slot equal to key: returns existing engine key or None (may fork)."""
+        if isinstance(key, (PList, PDict, PSet)):
+            ip.raise_exc("TypeError", f"unhashable type: '{ {PList: 'list', PDict: 'dict', PSet: 'set'}[type(key)] }'")
         if is_concrete(key) and not isinstance(key, (PObj, PList)):
             hk = _hashable(key)
             if hk in d.items:
